@@ -61,6 +61,11 @@ pub struct Lifetime {
     /// writes is still subject to every property
     #[serde(default)]
     pub deny_wx: bool,
+    /// before this lifetime the harness maps an executable page of its own on every address at
+    /// which the previous lifetime had a trampoline (that memory was released: whoever maps there
+    /// next owns it)
+    #[serde(default)]
+    pub squat: bool,
 }
 
 #[derive(Serialize, Deserialize, Clone, Debug, Hash, PartialEq, Eq)]
@@ -147,6 +152,9 @@ pub struct LifeObs {
     pub anon_exec: Vec<u64>,
     pub diff_after_drop: Option<DiffObs>,
     pub diff_vs_first: Option<DiffObs>,
+    /// executable pages the harness mapped before this lifetime on released trampoline addresses
+    #[serde(default)]
+    pub squat_pages: Vec<u64>,
     pub bystanders: Vec<(String, u64)>,
     pub orig_runs: u64,
 }
@@ -320,6 +328,8 @@ pub fn execute(c: &HistCase, opts: &Opts) -> HistObs {
     o.anon_exec_before = crate::maps::anon_exec_pages();
     let snap0 = if opts.snapshots { Some(Snapshot::take()) } else { None };
     let mut prev_snap = snap0.clone();
+    let mut last_tramps: Vec<(u64, u64)> = vec![];
+    let mut squats: Vec<u64> = vec![];
     let detail_limit = if opts.detail_limit == 0 { usize::MAX } else { opts.detail_limit };
     let mut life_no = 0usize;
     // neighbours of synthetic targets count as bystanders too
@@ -331,6 +341,35 @@ pub fn execute(c: &HistCase, opts: &Opts) -> HistObs {
             life_no += 1;
             o.total_lifetimes += 1;
             let mut lo = LifeObs::default();
+            if life.squat && detailed {
+                for (a, _) in &last_tramps {
+                    let page = (*a & !0xFFF) as usize;
+                    if squats.contains(&(page as u64)) {
+                        continue;
+                    }
+                    unsafe {
+                        let p = ip::sys_mmap(page, PAGE, libc::PROT_READ | libc::PROT_WRITE, libc::MAP_PRIVATE | libc::MAP_ANONYMOUS | 0x100000, -1, 0);
+                        if p == page {
+                            // 256 little functions at 16-byte pitch
+                            for k in 0..256usize {
+                                let mut code = [0xB8u8, 0, 0, 0, 0, 0xC3];
+                                code[1..5].copy_from_slice(&(0x5C00 + k as u32).to_le_bytes());
+                                std::ptr::copy_nonoverlapping(code.as_ptr(), (page + 16 * k) as *mut u8, 6);
+                            }
+                            ip::sys_mprotect(page, PAGE, libc::PROT_READ | libc::PROT_EXEC);
+                            squats.push(page as u64);
+                        } else if p != ip::MAP_FAILED {
+                            ip::sys_munmap(p, PAGE);
+                        }
+                    }
+                }
+                lo.squat_pages = squats.clone();
+                if opts.snapshots {
+                    prev_snap = Some(Snapshot::take());
+                }
+            } else {
+                lo.squat_pages = squats.clone();
+            }
             if let Some((which, salt)) = life.rewrite {
                 if !c.synth.is_empty() {
                     let si = which as usize % c.synth.len();
@@ -474,6 +513,7 @@ pub fn execute(c: &HistCase, opts: &Opts) -> HistObs {
                     }
                 }
             }
+            last_tramps = kept.clone();
             let evs: Vec<ip::Ev> = ip::log_snapshot().into_iter().skip(mark).collect();
             for e in &evs {
                 if e.kind == ip::Kind::Munmap {
@@ -525,6 +565,9 @@ pub fn execute(c: &HistCase, opts: &Opts) -> HistObs {
             }
         }
     }
+    for p in &squats {
+        unsafe { ip::sys_munmap(*p as usize, PAGE) };
+    }
     o.anon_exec_after = crate::maps::anon_exec_pages();
     o.status = "ran".into();
     drop(arenas);
@@ -549,6 +592,12 @@ pub fn strategy_rw(max_lifetimes: usize, max_steps: usize, synth_bias_last_slot:
 /// `deny_wx`: probability that a lifetime runs under a W^X policy (only for judges that look at
 /// what *was* written, not at whether an installation succeeded or what a refused one left mapped)
 pub fn strategy_full(max_lifetimes: usize, max_steps: usize, synth_bias_last_slot: bool, rewrites: bool, deny_wx: f64) -> impl Strategy<Value = HistCase> {
+    strategy_all(max_lifetimes, max_steps, synth_bias_last_slot, rewrites, deny_wx, 0.0)
+}
+
+/// `squat`: probability that the harness occupies the previous lifetime's trampoline addresses
+/// before a lifetime (C03 only: the other judges count executable pages)
+pub fn strategy_all(max_lifetimes: usize, max_steps: usize, synth_bias_last_slot: bool, rewrites: bool, deny_wx: f64, squat: f64) -> impl Strategy<Value = HistCase> {
     let off = if synth_bias_last_slot {
         prop_oneof![2 => 0u16..0x1000, 3 => Just(0xFF0u16), 1 => Just(0u16)].boxed()
     } else {
@@ -584,7 +633,7 @@ pub fn strategy_full(max_lifetimes: usize, max_steps: usize, synth_bias_last_slo
         4 => prop::collection::vec(step.clone(), 0..=max_steps).boxed(),
         1 => (prop::collection::vec(step.clone(), 0..=max_steps / 2), refake, prop::collection::vec(step, 0..=max_steps / 3)).prop_map(|(mut a, b, c)| { a.extend(b); a.extend(c); a }).boxed(),
     ];
-    let life = (steps, prop_oneof![3 => Just(Exit::Normal), 1 => Just(Exit::Unwind)], rw, prop::bool::weighted(deny_wx)).prop_map(|(steps, exit, rewrite, deny_wx)| Lifetime { steps, exit, rewrite, deny_wx });
+    let life = (steps, prop_oneof![3 => Just(Exit::Normal), 1 => Just(Exit::Unwind)], rw, prop::bool::weighted(deny_wx), prop::bool::weighted(squat)).prop_map(|(steps, exit, rewrite, deny_wx, squat)| Lifetime { steps, exit, rewrite, deny_wx, squat });
     (synth, prop::collection::vec(life, 1..=max_lifetimes), any::<u8>()).prop_map(|(synth, lifetimes, focus)| {
         // concentrate the history on a few targets: indices are folded onto a window of 4
         let lifetimes = lifetimes
@@ -601,6 +650,7 @@ pub fn strategy_full(max_lifetimes: usize, max_steps: usize, synth_bias_last_slo
                 exit: l.exit,
                 rewrite: l.rewrite,
                 deny_wx: l.deny_wx,
+                squat: l.squat,
             })
             .collect();
         HistCase { synth, lifetimes, repeat: 1 }
